@@ -4,6 +4,7 @@ import (
 	"fmt"
 	"os"
 	"path/filepath"
+	"sort"
 	"strings"
 
 	"verifharness/core"
@@ -34,6 +35,7 @@ type FSFrame struct {
 	Pkg      string  `json:"pkg"`      // package path used for the symbol
 	Explains string  `json:"explains"` // remote root that explains it ("" = none)
 	Decoy    bool    `json:"decoy,omitempty"`
+	Hostile  bool    `json:"hostile,omitempty"`
 	TestMain bool    `json:"testmain,omitempty"`
 }
 
@@ -62,6 +64,9 @@ type FSCfg struct {
 	Nested      bool // nested modules / overlapping GOPATH roots (C06 only: the answer is a matter of priority)
 	Decoys      bool
 	MissingSome bool
+	// Hostile adds frames whose paths are a detected remote root plus a short remainder outside its source trees
+	// (root+"/tool.go", root+".go", root+"x/src/a/b.go", ...): robustness inputs, no class is demanded for them.
+	Hostile bool
 }
 
 // GenFS creates a layout under dir (which must be empty) and the frames of a dump referencing it.
@@ -242,6 +247,28 @@ func GenFS(r *core.Rand, dir string, cfg *FSCfg) *FSLayout {
 		writeFile(p, "package main\n")
 		l.Mods[dir+"/scratch/run"] = "main"
 		addFrame(FSFrame{Remote: p, Local: p, Rel: "main.go", Import: "main", Class: FSGoMod, Exists: true, Pkg: "main", Explains: dir + "/scratch/run"})
+	}
+	if cfg.Hostile {
+		var roots []string
+		if l.RemoteGOROOT != "" {
+			roots = append(roots, l.RemoteGOROOT)
+		}
+		for rem := range l.RemoteGOPATH {
+			roots = append(roots, rem)
+		}
+		for md := range l.Mods {
+			roots = append(roots, md)
+		}
+		sort.Strings(roots)
+		rems := []string{"/a.go", "/ab.go", "/abc.go", "/tool.go", "/tools.go", "/x/y.go", "/src.go", "/srcs/a.go", "/pkg/m.go", "/pkg/mod.go", "/pkg/modx/y.go", "/bin/tool.go", ".go", "x/src/a/b.go", "/sr.go", "/p.go", "/zz/src/q/q.go"}
+		for _, root := range roots {
+			for k := r.Intn(4); k > 0; k-- {
+				addFrame(FSFrame{Remote: root + r.Pick(rems), Class: FSUnknown, Pkg: "hostile/pkg", Hostile: true})
+			}
+			if len(root) > 2 && r.Chance(1, 3) {
+				addFrame(FSFrame{Remote: root[:len(root)-1] + "/cut.go", Class: FSUnknown, Pkg: "hostile/pkg", Hostile: true})
+			}
+		}
 	}
 	// frames under no root
 	for k := r.Intn(3); k > 0; k-- {
